@@ -317,6 +317,44 @@ fn state(acc: &mut Acc, utc: Rd, off: i32, light: bool, args_u32: &[u32], years_
     }
 }
 
+/// the offset range: east / west constructors accept exactly (-24h, 24h), readers return what was given
+fn offset_constructors(acc: &mut Acc) {
+    let mut os: Vec<i64> = (-90_000i64..=90_000).collect();
+    os.extend(lat_i32().into_iter().map(|x| x as i64));
+    for k in [1i64 << 16, 1 << 17, 1 << 24, 1 << 31, 1 << 32] {
+        for v in [0i64, 1, 3600, 86_399, -3600] {
+            os.push(k + v);
+            os.push(-k + v);
+        }
+    }
+    os.retain(|x| *x >= i32::MIN as i64 && *x <= i32::MAX as i64);
+    os.sort();
+    os.dedup();
+    for &o in &os {
+        let oi = o as i32;
+        let ok = o > -86_400 && o < 86_400;
+        acc.transitions += 2;
+        let e = guard(|| FixedOffset::east_opt(oi));
+        let w = guard(|| FixedOffset::west_opt(oi));
+        let fine = match (&e, &w) {
+            (Ok(Some(e)), Ok(Some(w))) => ok && e.local_minus_utc() == oi && e.utc_minus_local() == -oi && w.local_minus_utc() == -oi && w.utc_minus_local() == oi && Some(*w) == FixedOffset::east_opt(-oi) && (*e == *w) == (oi == 0),
+            (Ok(None), Ok(None)) => !ok,
+            _ => false,
+        };
+        if !fine {
+            acc.violation("FixedOffset::east_opt / west_opt", format!("FixedOffset::east_opt({0}) / west_opt({0}) and their readers", o), if ok { format!("Some: local_minus_utc {} / {}", o, -o) } else { "None / None".to_string() }, format!("{:?} / {:?}", e, w));
+        }
+        if ok || o % 9973 == 0 {
+            #[allow(deprecated)]
+            let (de, dw) = (guard(|| FixedOffset::east(oi)).ok(), guard(|| FixedOffset::west(oi)).ok());
+            acc.transitions += 1;
+            if de != e.clone().ok().flatten() || dw != w.clone().ok().flatten() {
+                acc.violation("FixedOffset::east / west (deprecated forms)", format!("FixedOffset::east({0}) / west({0})", o), format!("{:?} / {:?} (panic for None)", e, w), format!("{:?} / {:?}", de, dw));
+            }
+        }
+    }
+}
+
 fn pairs(acc: &mut Acc, a: Rd, oa: i32, others: &[(Rd, i32)]) {
     let da = FixedOffset::east_opt(oa).unwrap().from_utc_datetime(&mk_ndt(a.0, a.1, a.2));
     for &(b, ob) in others {
@@ -428,6 +466,7 @@ fn main() {
             for (i, &(a, oa)) in sts.iter().enumerate() {
                 pairs(acc, a, oa, &sts[i..]);
             }
+            offset_constructors(acc);
             acc.traces += 1;
         }
     });
